@@ -40,6 +40,8 @@ HOSTILE = [" ", " ", "　", "٣", "４", "\x00", "\x1f", "((", "))", "[", "]]
            "§x", "x§", "ſ", "İ", "ı", "K", " ", "é", "ü", "‘", "’", "﻿", "\x0c", "\x85", "\r\n"]
 MULTIBYTE = ["“", "”", "‘", "’", "—", "–", "é", "ü", "ñ", "§", "¶", "…", "€", "✓", "𝒜"]
 
+WS_VARIANTS = ["\n", "\t", "  ", " (", "(( ", " [", "\n\n", ", ", "\r\n", ") "]
+
 SEPARATORS = [". ", "; ", ", ", " ", ". ", ". ", "\n", " (", ") ", ": ", " — ", ".\n", "  "]
 
 _num = st.sampled_from(["1", "2", "5", "12", "99", "100", "123", "550", "999", "1000", "2020", "12345"]) | st.integers(1, 999).map(str)
@@ -195,17 +197,22 @@ def document(draw, hostile=True, multibyte=False, max_frags=8, mutate=True):
         out.append(draw(fragment(hostile=hostile, multibyte=multibyte)))
         out.append(draw(st.sampled_from(SEPARATORS)))
     s = "".join(out)
-    if mutate and s and draw(st.integers(0, 9)) < 3:
+    if mutate and s and draw(st.integers(0, 9)) < 4:
         alphabet = PUNCT + (HOSTILE if hostile else []) + (MULTIBYTE if multibyte else [])
         for _ in range(draw(st.integers(1, 3))):
             i = draw(st.integers(0, len(s) - 1))
-            op = draw(st.integers(0, 9))
-            if op < 4:
+            op = draw(st.integers(0, 11))
+            if op < 3:
                 s = s[:i] + s[i + 1:]
-            elif op < 8:
+            elif op < 7:
                 s = s[:i] + draw(st.sampled_from(alphabet)) + s[i:]
-            else:
+            elif op < 9:
                 s = s[:i] + s[i:i + 5] + s[i:]
+            else:
+                # replace the next space (if any) by a whitespace / bracket variant
+                j = s.find(" ", i)
+                if j >= 0:
+                    s = s[:j] + draw(st.sampled_from(WS_VARIANTS)) + s[j + 1:]
             if not s:
                 break
     return s
